@@ -14,6 +14,7 @@ def run(tier, seed):
     # 1. the life-cycle protocol, all behaviours within the bounds (every early exit, arbitrary sync.Pool behaviour)
     poolsfam.model(check, "1g-3calls", "g1", 3, panic=False)
     poolsfam.model(check, "2g-1call", "g1, g2", 1, panic=False)
+    poolsfam.resultflow(check, 3 if quick else 5)
     if not quick:
         poolsfam.model(check, "1g-4calls-7obj", "g1", 4, panic=True, maxobj=7, timeout=7200)
     # 2. spec -> code: ALL call sequences of length <= 2 (quick) / <= 3 (thorough) over the schema-level call classes, enumerated by TLC (Gen_Api)
